@@ -473,7 +473,7 @@ func genPairCalls(rng *rand.Rand, jg *JGen, tag string, n int, depth int) []Pair
 func runC03(r *fw.Run) {
 	rng := rand.New(rand.NewSource(r.Seed*17 + 3))
 	jg := &JGen{R: rng}
-	ncases := r.Pick(400, 4000)
+	ncases := r.Pick(400, 12000)
 	for ti, tr := range pairTransports {
 		p, err := newPair(r, tr, RigOpt{Ifaces: c01Ifaces, UseListen: ti%2 == 1})
 		if err != nil {
